@@ -264,24 +264,14 @@ theorem akaOK_iff (orc : UriOracle) (uris : List String) :
   unfold akaOK
   cases h : mapM? orc.norm uris <;> simp [nodupStrings_iff]
 
-/-- original documents that carry an id (or, for DID documents, a context) are refused -/
+/-- original documents that carry an id (or, for DID documents, a context) are refused — whatever
+    the JSON type of that member -/
 theorem original_doc_rules (kvs : List (String × Json)) :
-    (originalDocOK (.obj kvs) = true ↔ stringEntry ((Json.obj kvs).get? "id") = "") ∧
+    (originalDocOK (.obj kvs) = true ↔ (Json.obj kvs).get? "id" = none) ∧
     (originalDidDocOK (.obj kvs) = true ↔
-      (stringEntry ((Json.obj kvs).get? "id") = "" ∧
-       ∀ xs, (Json.obj kvs).get? "@context" = some (.arr xs) → xs = [])) := by
+      ((Json.obj kvs).get? "id" = none ∧ (Json.obj kvs).get? "@context" = none)) := by
   constructor
   · simp [originalDocOK]
-  · simp only [originalDidDocOK, originalDocOK, Bool.and_eq_true, decide_eq_true_eq]
-    constructor
-    · rintro ⟨h1, h2⟩
-      refine ⟨h1, ?_⟩
-      intro xs hx
-      simpa [hx] using h2
-    · rintro ⟨h1, h2⟩
-      refine ⟨h1, ?_⟩
-      cases hc : (Json.obj kvs).get? "@context" with
-      | none => rfl
-      | some j => cases j <;> simp_all
+  · simp [originalDidDocOK, originalDocOK]
 
 end Sidetree.Props.C13
